@@ -1359,7 +1359,7 @@ func (s *PrintCtx) appendValue(val any) {
 		btoaS(s, z)
 
 	case []byte:
-		s.appendBytes(z)
+		s.pcQuoteValue(string(z)) // as a quoted string: raw bytes could break the line, forge pairs or recolour the terminal
 
 	case []string:
 		s.appendStringSlice(z)
